@@ -7,6 +7,8 @@ import (
 	"go/constant"
 	"go/token"
 	"go/types"
+	"sort"
+	"strings"
 
 	"golang.org/x/tools/go/ssa"
 )
@@ -198,6 +200,7 @@ func (fr *Frame) doAlloc(x *ssa.Alloc, st *State) Val {
 	default:
 		ex.store(st, *loc, el, zeroVal(el))
 	}
+	ex.ghostDefaults(st, r, el)
 	return Val{T: x.Type(), L: []Term{r}, P: loc}
 }
 
@@ -344,7 +347,11 @@ func (fr *Frame) doUnOp(x *ssa.UnOp, st *State) *State {
 		if loc.Fam == "AA" || loc.Fam == "EA" {
 			unsup("load of array value")
 		}
-		fr.vals[x] = ex.load(st, loc, x.Type())
+		lv := ex.load(st, loc, x.Type())
+		fr.vals[x] = lv
+		if isPointer(x.Type()) && len(lv.L) == 1 {
+			fr.assumeObjInv(st, lv, x.Type(), st.reach)
+		}
 	case token.NOT:
 		fr.vals[x] = Val{T: x.Type(), L: []Term{Not(ex.val(fr, x.X, st).one())}}
 	case token.SUB:
@@ -766,6 +773,9 @@ func (fr *Frame) makeIface(v Val, ct types.Type, it types.Type, st *State) Val {
 	case *types.Map, *types.Chan, *types.Signature:
 		return Val{T: it, L: []Term{tag, v.L[0]}}
 	case *types.Basic:
+		if hasMethods(ct) {
+			break // boxed, so that payloads of non-empty interfaces are always references
+		}
 		if len(v.L) == 1 && v.L[0].Sort == SInt {
 			return Val{T: it, L: []Term{tag, v.L[0]}}
 		}
@@ -795,6 +805,9 @@ func (fr *Frame) unbox(pl Term, ct types.Type, st *State) Val {
 		v := Val{T: ct, L: []Term{pl}}
 		return v
 	case *types.Basic:
+		if hasMethods(ct) {
+			break
+		}
 		ls := shape(ct)
 		if len(ls) == 1 && ls[0].Sort == SInt {
 			return Val{T: ct, L: []Term{pl}}
@@ -827,7 +840,8 @@ func (fr *Frame) doTypeAssert(x *ssa.TypeAssert, st *State) Val {
 		ok = ex.vc.define("isT", ok)
 		res = fr.unbox(pl, at, st)
 		if isPointer(at) {
-			ex.fact(Implies(ok, Ne(pl, Int(0)).orTrueIfUnknown()))
+			// object invariants hold for every object reachable at this point
+			fr.assumeObjInv(st, res, at, And(ok, st.reach))
 		}
 	}
 	if x.CommaOk {
@@ -980,4 +994,84 @@ func (fr *Frame) allocObligation(st *State, x ssa.Instruction, n Term) {
 	if fr.ex.P.allocHook != nil {
 		fr.ex.P.allocHook(fr, st, x, n)
 	}
+}
+
+
+// ghostDefaults zero-initialises the ghost fields that can belong to a freshly
+// allocated object of type el (owner is el itself or an interface *el implements).
+func (ex *Exec) ghostDefaults(st *State, r Term, el types.Type) {
+	if !isStruct(el) {
+		return
+	}
+	tn := typeName(el)
+	var keys []string
+	for k := range ex.P.db.Ghosts {
+		keys = append(keys, k)
+	}
+	sort.Strings(keys)
+	for _, k := range keys {
+		gf := ex.P.db.Ghosts[k]
+		ok := gf.Owner == tn
+		if !ok {
+			if ot := ex.P.lookupNamedType(gf.Owner); ot != nil {
+				if it, isI := under(ot).(*types.Interface); isI {
+					ok = types.Implements(types.NewPointer(el), it) || types.Implements(el, it)
+				} else if st2, isS := under(el).(*types.Struct); isS {
+					// owner is a struct embedded (transitively) in el
+					ok = embeds(st2, gf.Owner, 0)
+				}
+			}
+		}
+		if !ok {
+			continue
+		}
+		h := ex.heapInfo("GH", gf.Owner, gf.Name, Leaf{"", gf.Sort, nil, "ghost"}, "GH:"+gf.Owner+"."+gf.Name, 1)
+		var z Term
+		switch gf.Sort {
+		case SBool:
+			z = False
+		case SInt:
+			z = Int(0)
+		default:
+			continue
+		}
+		st.set(h, ex.vc.define(h.Name, Store(st.get(h), r, z)))
+	}
+}
+
+func embeds(st *types.Struct, owner string, depth int) bool {
+	if depth > 6 {
+		return false
+	}
+	for i := 0; i < st.NumFields(); i++ {
+		f := st.Field(i)
+		if !f.Embedded() {
+			continue
+		}
+		if typeName(f.Type()) == owner {
+			return true
+		}
+		if sub, ok := under(f.Type()).(*types.Struct); ok && embeds(sub, owner, depth+1) {
+			return true
+		}
+	}
+	return false
+}
+
+// assumeObjInv assumes the declared type invariants of the object v points to.
+func (fr *Frame) assumeObjInv(st *State, v Val, t types.Type, cond Term) {
+	ex := fr.ex
+	for _, it := range ex.P.invTargets(ex, v, t) {
+		env := ex.newEnv(st, st, fr)
+		env.pkg = it.tn[:strings.Index(it.tn, ".")]
+		env.vars["this"] = it.v
+		for _, c := range it.cs {
+			ex.vc.assert(Implies(And(cond, Ne(v.L[0], Int(0))), safeEval(env, c)))
+		}
+	}
+}
+
+
+func hasMethods(t types.Type) bool {
+	return types.NewMethodSet(t).Len() > 0 || types.NewMethodSet(types.NewPointer(t)).Len() > 0
 }
